@@ -436,6 +436,37 @@ def probe_d39():
     return m.log != c.log, f"original's callback log {m.log}, copy's {c.log}"
 
 
+def probe_d39b():
+    """the triggers bound onto the model with `bind_events_to(model)` *after* construction become, for the copy, one
+    more provider of every callback that is named like an event (`after="advance"`): the copy sends it twice"""
+    import copy
+    import warnings
+    from statemachine import State, StateMachine
+    with warnings.catch_warnings():
+        warnings.simplefilter("ignore")
+
+        class M(StateMachine):
+            a = State(initial=True)
+            b = State()
+            c = State()
+            go = a.to(b, after="advance") | c.to(a)
+            advance = b.to(c) | c.to(a)
+
+        class Mdl:
+            pass
+        m = Mdl()
+        sm = M(m)
+        sm.bind_events_to(m)
+        cl = copy.deepcopy(sm)
+        sm.go()
+        try:
+            cl.go()
+            got = cl.current_state.id
+        except Exception as e:  # noqa: BLE001
+            got = type(e).__name__
+    return sm.current_state.id != got, f"original ends in {sm.current_state.id!r}, its copy in {got!r}"
+
+
 def probe_d40():
     """a model that owns its machine and provides a guard as an instance attribute: copying the model fails (the
     machine is rebuilt over the half-built copy of the model)"""
@@ -663,6 +694,8 @@ def run_findings(ctx):
     known = {k.get("exclusion"): k for k in known_findings("C17") if k.get("status") == "known"}
     for key, probe, title in (("callback-attribute-assigned-after-construction", probe_d39,
                                "an attribute callback assigned after construction is called by the copy only"),
+                              ("triggers-bound-onto-the-model-then-copied", probe_d39b,
+                               "triggers bound onto the model make the copy send a chained event twice"),
                               ("owner-model-with-instance-attribute-guard", probe_d40,
                                "a model owning its machine and providing a guard as an instance attribute cannot be copied")):
         bad, what = probe()
